@@ -50,6 +50,8 @@ def oracle(case, a):
     rules, world, scene = case
     if a in ("PANIC", "<missing>") or a.startswith("BAD") or a.startswith("UNSUPPORTED"):
         return "export failed: %s" % a
+    if "!stale-list" in a:
+        return "a component in the scene carries a list that does not belong to its current value (a stale copy was merged, not replaced): %s" % a
     ents, order, rt = parse_answer(a)
     if len(order) != len(set(order)):
         return "an entity occurs twice in the scene"
